@@ -433,6 +433,7 @@ type EnvOpts struct {
 	Influx        InfluxDBService
 	StoreWrap     func(ns string, s storage.Interface) storage.Interface
 	Prepare       func(e *Env) // called before tm.Open()
+	TMName        string       // TaskMaster id (default: process-unique); restart cases reuse one
 }
 
 // Unique returns a process-unique suffix (expvar registries are process global and
@@ -442,7 +443,11 @@ func Unique() string { return strconv.FormatInt(atomic.AddInt64(&envSeq, 1), 36)
 func NewEnv(o EnvOpts) (*Env, error) {
 	e := &Env{Sink: &Sink{}}
 	d := sinkDiag{Diagnostic: DiagService.NewKapacitorHandler(), s: e.Sink}
-	tm := kapacitor.NewTaskMaster("vtm"+Unique(), ServerInfo{}, d)
+	name := o.TMName
+	if name == "" {
+		name = "vtm" + Unique()
+	}
+	tm := kapacitor.NewTaskMaster(name, ServerInfo{}, d)
 	tm.HTTPDService = HTTPDStub{}
 	tm.TaskStore = TaskStoreStub{}
 	tm.DeadmanService = DeadmanStub{}
